@@ -1,7 +1,7 @@
 """C14 - all input formats and eigenbases give the same result; operator_to_BlockSeries returns L_i^dagger A R_j."""
 from .common import Decision, run_units
 from .series_props import specs_solver, specs_masks, fold_canaries
-from .format_props import specs_keys, specs_projection, specs_blocks
+from .format_props import specs_linalg_misc, specs_keys, specs_projection, specs_blocks
 from .relational_common import NAT_LEAN, NAT_LEAN_NH, NAT_NOTE, INSTANCE_NOTE
 
 
@@ -9,7 +9,7 @@ def check(tier, seed):
     d = Decision("C14", tier, seed)
     t = 60000 if tier == "thorough" else 20000
     sub = [("contracts.bd_guards", "unit_check_biorthonormality", {"nsub": n, "timeout_ms": t}) for n in (1, 3)] + [("contracts.bd_guards", "unit_normalize_subspaces", {"timeout_ms": t})]
-    d.add_units(fold_canaries(run_units(specs_keys(tier) + specs_projection(tier) + specs_blocks(tier) + specs_solver(tier) + specs_masks(tier) + sub)))
+    d.add_units(fold_canaries(run_units(specs_keys(tier) + specs_projection(tier) + specs_blocks(tier) + specs_solver(tier) + specs_masks(tier) + sub + specs_linalg_misc(tier))))
     d.add_lean(NAT_LEAN + NAT_LEAN_NH)
     d.assumptions += [NAT_NOTE,
                       INSTANCE_NOTE + "a change of (bi)orthonormal eigenbasis is conjugation A -> L^dagger A R with L^dagger R = 1, a ring homomorphism of the block algebra "
